@@ -70,6 +70,129 @@ def relation_residual(kind_in, kind_out, n, min_, mout, z0, rng):
     return num / den
 
 
+Z = (Fraction(0), Fraction(0))
+ONE = (Fraction(1), Fraction(0))
+SQ_DY = [Fraction(4), Fraction(9), Fraction(1, 4), Fraction(25, 4), Fraction(1), Fraction(16)]
+SQ_P2 = [Fraction(4), Fraction(1), Fraction(16), Fraction(1, 4)]
+
+
+def rd(rng):
+    """small dyadic rational (exact in binary64)"""
+    return Fraction(rng.randint(-9, 9), rng.choice([1, 2, 4]))
+
+
+def csub(a, b):
+    return (a[0] - b[0], a[1] - b[1])
+
+
+def cadd(a, b):
+    return (a[0] + b[0], a[1] + b[1])
+
+
+def cdivq(a, b):
+    d = b[0] * b[0] + b[1] * b[1]
+    return ((a[0] * b[0] + a[1] * b[1]) / d, (a[1] * b[0] - a[0] * b[1]) / d)
+
+
+def cconj(a):
+    return (a[0], -a[1])
+
+
+def factored(f, n, m, z0):
+    """the matrix the C function factors (LU), as exact complex rationals; None for stozin"""
+    def cell(i, j):
+        x = m[i * n + j]
+        d = ONE if i == j else Z
+        if f == "stozn":
+            return csub(d, x)
+        if f == "stoyn":
+            return cadd(cmul(x, z0[j]), cconj(z0[i]) if i == j else Z)
+        if f in ("ztosn", "ztozin"):
+            return cadd(x, z0[i] if i == j else Z)
+        if f in ("ytosn", "ytozin"):
+            return cadd(cmul(z0[i], x), d)
+        if f in ("ztoyn", "ytozn"):
+            return x
+        return None
+    if f == "stozin":
+        return None
+    return [[cell(i, j) for j in range(n)] for i in range(n)]
+
+
+def from_factored(f, n, F, z0):
+    """inverse of [factored]: the input matrix whose factored matrix is F"""
+    def cell(i, j):
+        x = F[i][j]
+        d = ONE if i == j else Z
+        if f == "stozn":
+            return csub(d, x)
+        if f == "stoyn":
+            return cdivq(csub(x, cconj(z0[i]) if i == j else Z), z0[j])
+        if f in ("ztosn", "ztozin"):
+            return csub(x, z0[i] if i == j else Z)
+        if f in ("ytosn", "ytozin"):
+            return cdivq(csub(x, d), z0[i])
+        return x
+    return [cell(i, j) for i in range(n) for j in range(n)]
+
+
+def exact_nonsingular(F):
+    """Gaussian elimination over Q[i]"""
+    n = len(F)
+    a = [row[:] for row in F]
+    for c in range(n):
+        p = next((r for r in range(c, n) if a[r][c] != Z), None)
+        if p is None:
+            return False
+        a[c], a[p] = a[p], a[c]
+        for r in range(c + 1, n):
+            if a[r][c] != Z:
+                q = cdivq(a[r][c], a[c][c])
+                a[r] = [csub(x, cmul(q, y)) for x, y in zip(a[r], a[c])]
+    return True
+
+
+def exact_in_double(vals):
+    return all(Fraction(float(x)) == x for v in vals for x in v)
+
+
+def scale_c(v, c):
+    return (v[0] * c, v[1] * c)
+
+
+def run_model_parallel(drv, mlines, timeout=900):
+    """the extracted model on every line, spread over the cores (output order preserved)"""
+    import subprocess
+    import threading
+    nproc = max(1, min(vplib.NPROC, 12, len(mlines)))
+    order = sorted(range(len(mlines)), key=lambda i: -len(mlines[i]))
+    chunks = [order[k::nproc] for k in range(nproc)]
+    procs = [(subprocess.Popen([drv], stdin=subprocess.PIPE, stdout=subprocess.PIPE, stderr=subprocess.PIPE,
+                               universal_newlines=True), ch) for ch in chunks]
+    outs = [None] * len(procs)
+
+    def feed(k):
+        p, ch = procs[k]
+        try:
+            outs[k] = p.communicate("".join(mlines[i] + "\n" for i in ch), timeout=timeout)
+        except subprocess.TimeoutExpired:
+            p.kill()
+            outs[k] = ("", "[timeout]")
+    ths = [threading.Thread(target=feed, args=(k,)) for k in range(len(procs))]
+    for t in ths:
+        t.start()
+    for t in ths:
+        t.join()
+    res = [None] * len(mlines)
+    for (p, ch), (o, e) in zip(procs, outs):
+        lines = o.strip().split("\n") if o.strip() else []
+        if p.returncode != 0 or len(lines) != len(ch):
+            raise vplib.BuildError("model driver failed: " + (e or "")[-500:])
+        for i, ln in zip(ch, lines):
+            res[i] = ln
+    return "\n".join(res) + "\n"
+
+
 def run(ctx, broken):
     ncase = 4 if ctx.tier == "quick" else 25
     nmax = 6
@@ -92,6 +215,80 @@ def run(ctx, broken):
                 else:
                     z0 = [(rng.choice(SQ), rr(rng)) for _ in range(n)]
                 cases.append((f, n, m, z0))
+    nbase = len(cases)
+    fam = ["base"] * nbase          # family of each case
+    ref = [None] * nbase            # index of the case whose conditioning verdict this one inherits
+    thorough = ctx.tier != "quick"
+
+    def add(f, n, m, z0, family, base=None):
+        cases.append((f, n, m, z0))
+        fam.append(family)
+        ref.append(base)
+        return len(cases) - 1
+
+    # ---- (seq) call SEQUENCES in one process with related z0 vectors: the result of a conversion must
+    # not depend on the previous call.  A, then B = A on the leading ports and different Re z0 on the
+    # later ones, then A again, then A once more (different-then-same, same-then-same), same matrix.
+    for f in FUNS_M + FUNS_ZI:
+        for n in range(2, nmax + 1):
+            for rep in range(1 if not thorough else 3):
+                m = [(rr(rng), rr(rng)) for _ in range(n * n)]
+                za = [(rng.choice(SQ), rr(rng)) for _ in range(n)]
+                ia = add(f, n, m, za, "seq")
+                for h in sorted({(n + 1) // 2, n - 1, 1}):
+                    zb = list(za)
+                    for t in range(h, n):
+                        zb[t] = (rng.choice([q for q in SQ if q != za[t][0]]), za[t][1] if rng.random() < 0.5 else rr(rng))
+                    add(f, n, m, zb, "seq", ia)
+                    add(f, n, m, za, "seq", ia)
+                add(f, n, m, za, "seq", ia)
+    # ---- (scaled) power-of-two scalings (exact in binary64; the exact model follows): impedance level
+    # multiplied by 4^k (z0 and Z by 4^k, Y by 4^-k, S unchanged), the Z <-> Y functions by 2^k.
+    # Homogeneity (ytozn(c Y) = ytozn(Y)/c, ...) is checked through the exact model.
+    for f in FUNS_M + FUNS_I + FUNS_ZI:
+        for n in range(1, nmax + 1):
+            for rep in range(1 if not thorough else 4):
+                m = [(rd(rng), rd(rng)) for _ in range(n * n)]
+                z0 = [(rng.choice(SQ_DY), rd(rng)) for _ in range(n)]
+                ib = add(f, n, m, z0, "scaled-base")
+                ks = [-20, -10, 10, 20] if (thorough or n >= 3) else [rng.choice([-20, -10]), rng.choice([10, 20])]
+                for k in ks:
+                    if f in FUNS_I:
+                        add(f, n, [scale_c(v, Fraction(2) ** (2 * k)) for v in m], z0, "scaled", ib)
+                        continue
+                    c = Fraction(4) ** k
+                    if f in ("ztosn", "ztozin"):
+                        mk = [scale_c(v, c) for v in m]
+                    elif f in ("ytosn", "ytozin"):
+                        mk = [scale_c(v, 1 / c) for v in m]
+                    else:
+                        mk = m
+                    add(f, n, mk, [scale_c(v, c) for v in z0], "scaled", ib)
+    # ---- (zero-pivot) nonsingular inputs whose FACTORED matrix (I - S, S Z0 + Z0*, Z + Z0, I + Z0 Y, Z, Y)
+    # has an exactly zero leading entry or an exactly singular leading 2x2 minor: elimination without
+    # row exchanges breaks down on them, the library's pivoting LU does not.  Exact in binary64.
+    for f in FUNS_M + FUNS_I + ["ztozin", "ytozin"]:
+        for n in range(2, nmax + 1):
+            for kind in ("zero_lead", "sing_minor"):
+                if kind == "sing_minor" and n < 3:
+                    continue
+                for rep in range(1 if not thorough else 4):
+                    for attempt in range(20):
+                        F = [[(rd(rng), rd(rng)) for _ in range(n)] for _ in range(n)]
+                        if kind == "zero_lead":
+                            F[0][0] = Z
+                        else:
+                            q = (Fraction(rng.choice([-2, -1, 1, 2])), Fraction(rng.choice([-1, 0, 1])))
+                            F[1][0] = cmul(q, F[0][0])
+                            F[1][1] = cmul(q, F[0][1])
+                        if f in ("stoyn", "ytosn", "ytozin"):
+                            z0 = [(rng.choice(SQ_P2), Fraction(0)) for _ in range(n)]
+                        else:
+                            z0 = [(rng.choice(SQ_DY), rd(rng)) for _ in range(n)]
+                        m = from_factored(f, n, F, z0)
+                        if exact_nonsingular(F) and exact_in_double(m) and exact_in_double(z0):
+                            add(f, n, m, z0, kind)
+                            break
     mlines, clines = [], []
     for f, n, m, z0 in cases:
         ms = " ".join("%s %s" % (fs(a), fs(b)) for a, b in m)
@@ -110,9 +307,10 @@ def run(ctx, broken):
             else:
                 clines.append("%s %d %s %s" % (f, n, cs, zc))
     drv = ctx.ocaml_driver("drv_lin")
-    rc, mout, merr = vplib.sh([drv], input="\n".join(mlines) + "\n", timeout=900)
-    if rc != 0:
-        raise vplib.BuildError("model driver failed: " + merr[-500:])
+    import time as _time
+    t0 = _time.time()
+    mout = run_model_parallel(drv, mlines)
+    ctx.extra["nport_model_seconds"] = round(_time.time() - t0, 1)
     exe = ctx.build_harness("lin_harness", san=True)
     rc, cout, cerr = vplib.sh([exe], input="\n".join(clines) + "\n", timeout=600, env=ctx.run_env())
     if rc != 0:
@@ -125,42 +323,79 @@ def run(ctx, broken):
     used = 0
     skipped = 0
     worst = {}
+    fam_used = {}
+    verdict = [None] * len(cases)       # True = judged well conditioned on the exact model
     for idx, (f, n, m, z0) in enumerate(cases):
         _, mv = parse_model(ml[idx])
         _, cv = parse_c(cl[2 * idx])
         _, ca = parse_c(cl[2 * idx + 1])
-        scale = max([abs(x) for x in mv] + [1.0])
+        family = fam[idx]
+        outscale = max(abs(x) for x in mv)
         inscale = max(abs(complex(float(a), float(b))) for a, b in m)
         ctx.evaluations += 1
-        if scale > 1e5 * max(inscale, 1.0) or not all(x == x and abs(x) != float("inf") for x in cv):
+        finite_c = all(x == x and abs(x) != float("inf") for x in cv)
+        F = factored(f, n, m, z0)
+        nonsing = exact_nonsingular(F) if F is not None else True
+        if family in ("seq", "scaled") and ref[idx] is not None:
+            well = verdict[ref[idx]]
+        elif f in FUNS_I and family != "base":
+            well = nonsing and inscale * outscale <= 1e6      # |M| |M^-1|
+        else:
+            well = nonsing and not max(outscale, 1.0) > 1e5 * max(inscale, 1.0)
+        if f in FUNS_ZI and well:
+            # the input-impedance functions divide once more per port (1 / x_ii resp. 1 / (1 - s_ii)); the
+            # exact-field model computes 1/0 = 0 there, which shows as zin_i = -z0_i resp. zin_i = 0 exactly:
+            # such a port has no finite input impedance, nothing is asserted
+            ev = [Fraction(x) for x in ml[idx].split()[1:]]
+            ex = [(ev[k], ev[k + 1]) for k in range(0, len(ev), 2)]
+            if any(v == Z or v == (-z0[t][0], -z0[t][1]) for t, v in enumerate(ex)):
+                well = False
+        verdict[idx] = well
+        if not well:
             skipped += 1
             continue            # (near-)singular draw: nothing asserted
+        if not finite_c:
+            if f in FUNS_ZI or (family == "base" and not nonsing):
+                skipped += 1
+                continue
+            # the exact model shows a nonsingular, well-conditioned input: a non-finite output is wrong
+            bad.setdefault(f, ("nonfinite(%s)" % family, n, m, z0, mv, cv))
+            continue
         used += 1
+        fam_used[family] = fam_used.get(family, 0) + 1
         ctx.nontrivial.add(("nport", f, n, idx))
+        # base family: the historical absolute floor of 1; the new families (scaled inputs) are judged
+        # relative to the size of the exact result
+        scale = max(outscale, 1.0) if family == "base" else (outscale or 1.0)
         d1 = max(abs(x - y) for x, y in zip(mv, cv))
         d2 = max(abs(x - y) for x, y in zip(cv, ca))
         worst[f] = max(worst.get(f, 0.0), d1 / scale)
         if not d1 <= 1e-8 * scale:
-            bad.setdefault(f, ("model", n, m, z0, mv, cv))
+            bad.setdefault(f, ("model" if family == "base" else "model(%s)" % family, n, m, z0, mv, cv))
         if d2 != 0.0 and not all(x == y for x, y in zip(cv, ca)):
             bad.setdefault(f, ("alias", n, m, z0, cv, ca))
         # independent relation oracle on the C output
-        if f in FUNS_M + FUNS_I:
+        if f in FUNS_M + FUNS_I and family == "base":
             zc = [complex(float(a), float(b)) for a, b in z0] if f in FUNS_M else [complex(50, 0)] * n
             mc = [complex(float(a), float(b)) for a, b in m]
             r = relation_residual(f[0], f[3], n, mc, cv, zc, rng)
             if r > 1e-7:
                 bad.setdefault(f, ("relation", n, m, z0, r, cv))
         if idx % 53 == 0:
-            ctx.sample({"function": "vnaconv_" + f, "n": n, "matrix": [[fs(a), fs(b)] for a, b in m][:4],
+            ctx.sample({"function": "vnaconv_" + f, "n": n, "family": family, "matrix": [[fs(a), fs(b)] for a, b in m][:4],
                         "model_first_cell": str(mv[0]), "c_first_cell": str(cv[0])})
+    ctx.extra["nport_cases_by_family"] = fam_used
+    for need in ("seq", "scaled", "zero_lead", "sing_minor"):
+        if fam_used.get(need, 0) < 10:
+            raise vplib.BuildError("n-port generator: only %d usable cases of family %s" % (fam_used.get(need, 0), need))
     ctx.traces_validated += used
     ctx.extra["nport_cases_used"] = used
     ctx.extra["nport_cases_skipped_singular"] = skipped
-    if skipped > len(cases) // 4:
+    if skipped > len(cases) // 3:
         bad.setdefault("many", ("too many non-finite / ill-conditioned outputs", 0, [], [], skipped, len(cases)))
     ctx.extra["nport_worst_rel_diff"] = worst
-    ctx.obligation("tie:ConvN-vs-C (n=1..6, separate and aliased)", not bad,
+    ctx.obligation("tie:ConvN-vs-C (n=1..6, separate and aliased; call sequences with related z0, 4^k / 2^k scaled inputs, "
+                   "zero leading entry / singular leading minor of the factored matrix)", not bad,
                    "; ".join("%s: %s n=%d" % (f, b[0], b[1]) for f, b in bad.items()))
     for f, b in sorted(bad.items()):
         ctx.violation({"kind": "nport", "function": f, "class": b[0]},
